@@ -103,6 +103,28 @@ def observe(c):
                      ("inv(A)@B", lambda: Ai @ B, inv_exact @ B.astype(np.complex128)),
                      ("solve(A,b)", lambda: cola.linalg.solve(A, b, alg), inv_exact @ b.astype(np.complex128)),
                      ("inv(A).to_dense()", lambda: Ai.to_dense(), inv_exact)]
+            if not direct:
+                # columns of very different scale: every column is its own linear system, so the requested
+                # tolerance is owed to each of them (compared column by column, relative to that column)
+                Bs = B * np.array([1.0, 1e-4 if single else 1e-6], dtype=B.dtype)
+                if name == "CG":
+                    # first column an eigenvector (converges at once), second a generic column far below it in scale:
+                    # the small system must still be solved to the tolerance
+                    w, Vv = np.linalg.eigh(Dn)
+                    Bs = np.stack([Vv[:, -1], (alg.tol / 10) * B[:, 1].astype(np.complex128)], axis=1)
+                    Bs = (Bs if dt.startswith("c") else Bs.real).astype(B.dtype)
+                try:
+                    got = np.asarray(Ai @ Bs)
+                    exp = inv_exact @ Bs.astype(np.complex128)
+                    for j in range(Bs.shape[1]):
+                        cs = float(np.max(np.abs(exp[:, j])))
+                        err = float(np.max(np.abs(got[:, j].astype(np.complex128) - exp[:, j])))
+                        if not np.isfinite(err) or err > rtol * cs:
+                            V("value", f"inv(A)@[b1, eps*b2] column {j}: max abs error {err:.3g} > {rtol:.2g} x column "
+                              f"scale {cs:.3g}", what="inv(A)@Bscaled", column=j, **extra)
+                except Exception as e:  # noqa: BLE001
+                    V("exception", f"inv(A)@Bscaled with {name} raised {type(e).__name__}: {str(e)[:140]}",
+                      what="inv(A)@Bscaled", **extra, **common.exc_info(e))
             if direct:
                 steps += [("b@inv(A)", lambda: b @ Ai, b.astype(np.complex128) @ inv_exact),
                           ("inv(A).T.to_dense()", lambda: Ai.T.to_dense(), inv_exact.T)]
